@@ -51,6 +51,8 @@ func init() {
 					us4 = append(us4, u)
 				}
 			}
+			us5, es5 := buildRestoreFile(p, tier)
+			us4, es4 = append(us4, us5...), append(es4, es5...)
 			us = append(append(append(us, us2...), us3...), us4...)
 			es = append(append(append(es, es2...), es3...), es4...)
 			return us, es
@@ -71,7 +73,7 @@ func init() {
 		},
 		NotDecided: []string{
 			"dst.NewPackage against ast.NewPackage beyond one shared contract (the returned scope is nested in the universe, the package holds the files given): that redeclaration and undeclared-name reports coincide is not decided",
-			"the deferred pass of RestoreFile that fills Decl/Data of restored objects from nodeDecl/nodeData: it ranges over maps that the calls inside the loop may extend",
+			"the deferred pass of RestoreFile: each link it stores is the node map's counterpart of the recorded dst node (decided); that it reaches every recorded object is not (it ranges over maps that the calls inside the loop may extend)",
 			"Object.Type is not copied (documented placeholder)",
 		},
 	})
